@@ -9,7 +9,7 @@ import copy
 
 import pandas as pd
 
-from ..sim import Sim, Oracle
+from ..sim import Sim, Oracle, op
 from ..multi import Combined
 from ..canon import canon, digest
 from ..shrink import truncate_world
@@ -101,6 +101,8 @@ def generate(seed: int, tier: str = "quick") -> dict:
     elif R.sub(seed, "loader").random() < 0.2:
         sc.setdefault("opts", {})["loader_twin"] = True  # the twin data sets also go through the real CSV loader
         sc["faults"].append({"kind": "data_read_from_minute_files"})
+    if not sc.get("opts", {}).get("reordered_rows"):
+        _maybe_add_column(R.sub(seed, "add_column"), sc)
     return sc
 
 
@@ -153,7 +155,17 @@ def gen_donor(seed, tier, donor):
         kind = rf.choice(["freeze", "truncate", "random", "random"])
         twins.append({"k": kb, "j": j, "kind": kind, "seed": rf.randint(0, 2**31), "mid_bin": j != j0})
         sc["faults"].append({"kind": "future_divergence:" + kind, "bar": kb})
+    if world.get("prices_from"):
+        # a data set that ends with the snapshot taken exactly at midnight (the day boundary of the derived price list)
+        for kb in range(nb - 1):
+            t = pd.Timestamp(times[kb])
+            j0 = DN.minute_of(world, times[kb + 1])
+            if t == t.normalize() and 0 < j0 < n and not any(tw["k"] == kb and tw["kind"] == "truncate" for tw in twins):
+                twins.append({"k": kb, "j": j0, "kind": "truncate", "seed": rf.randint(0, 2**31), "mid_bin": False})
+                sc["faults"].append({"kind": "future_divergence:truncate_after_the_midnight_snapshot", "bar": kb})
+                break
     sc["twins"] = twins
+    _maybe_add_column(R.sub(seed, "add_column"), sc)
     return sc
 
 
@@ -294,8 +306,54 @@ class SnapshotLogger(Oracle):
             sim.event("snapshot", phase, digest([s.timestamp, s.row_id, s.prices, mine]))
 
 
-def frame_hash(df):
+def frame_hash(df, user_columns=()):
+    """hash of a supplied frame; columns the STRATEGY added on its own request (Strategy.add_column writes into the run's
+    market data by design) are the user's and left out - anything else that appears in the frame counts"""
+    if user_columns:
+        keep = [c for c in df.columns if c not in user_columns]
+        if len(keep) != len(df.columns):
+            df = df[keep]
     return digest([canon(df), [str(t) for t in df.dtypes], str(df.index.dtype), [str(c) for c in df.columns]])
+
+
+def _user_columns(scenario):
+    return tuple(sorted({o["a"]["name"] for o in scenario.get("program", []) if o.get("op") == "strat.add_sparse_column"}))
+
+
+@op("strat.add_sparse_column")
+def _add_sparse_column(sim, m, a):
+    """The strategy registers an indicator of its own in initialize (Strategy.add_column): a CAUSAL one - the value stamped
+    t is computed from the data row of t alone - but sampled more coarsely than the data (every s-th row from an offset),
+    so most rows have no value of their own."""
+    df = m.data
+    if isinstance(df.index, pd.MultiIndex) or isinstance(df.columns, pd.MultiIndex):
+        return None
+    src = next((c for c in df.columns if c != a["name"] and len(df) and isinstance(df[c].iloc[0], (int, float)) and not isinstance(df[c].iloc[0], bool)), None)
+    if src is None:
+        src = next((c for c in df.columns if c != a["name"]), None)
+    if src is None:
+        return None
+
+    def call():
+        step, off = max(1, int(a.get("step", 2))), int(a.get("off", 0)) % max(1, int(a.get("step", 2)))
+        part = df[src].iloc[off::step]
+        series = pd.Series([float(x) if x == x and x is not None else float("nan") for x in part], index=part.index)
+        sim.strategy.add_column(m if a.get("by") == "market" else m.market_info, a["name"], series)
+        return [a["name"], src, step, off]
+
+    return call
+
+
+def _maybe_add_column(rx, sc):
+    """in ~12% of the scenarios the strategy adds a sparse indicator column to one single-index market in initialize"""
+    if rx.random() >= 0.12:
+        return
+    cands = [mw["name"] for mw in sc["world"]["markets"] if mw.get("kind") in ("uni", "squeeth", "gmx", "gmx2")]
+    if not cands:
+        return
+    sc["program"].insert(0, {"bar": -1, "phase": "initialize", "op": "strat.add_sparse_column", "m": rx.choice(cands),
+                             "a": {"name": rx.choice(["my_signal", "sma_h"]), "step": rx.choice([2, 3, 5, 60]), "off": rx.randint(0, 4), "by": rx.choice(["market", "key"])}})
+    sc["faults"].append({"kind": "strategy_adds_a_sparse_indicator_column"})
 
 
 def _dtypes(fed):
@@ -420,13 +478,14 @@ def execute(scenario):
         return execute_reordered(scenario)
     base = {kk: v for kk, v in scenario.items() if kk != "twins"}
     h0 = {}
+    ucols = _user_columns(base)
     s1 = Sim(base, SnapshotLogger(), on_feed=lambda name, df: h0.__setitem__(name, frame_hash(df)))  # hashed before hand-over
     frames = dict(s1.fed)
     s1.run()
-    h1 = {name: frame_hash(df) for name, df in frames.items()}
+    h1 = {name: frame_hash(df, ucols) for name, df in frames.items()}
     s2 = Sim(base, SnapshotLogger(), prebuilt=frames)  # fresh account, the very same frame objects
     s2.run()
-    h2 = {name: frame_hash(df) for name, df in frames.items()}
+    h2 = {name: frame_hash(df, ucols) for name, df in frames.items()}
     res = Combined([s1, s2])
     for name in h0:
         if h0[name] != h1[name] or h0[name] != h2[name]:
